@@ -54,3 +54,125 @@ def case_events(fn, val, env, is_prim, what=''):
         return False
     run(kids(fn.body))
     return events
+
+
+def effects_under(fn, stmts, val, env=None, keep=(), loops='stop', nm=None):
+    """the side-effecting statements executed by `stmts` under a valuation of the conditions, in order, each as the normal form
+    of its expression ("(a=b)", "(x+=1)", "f(a,b)", "(stream<<c)"); declarations are read through unless their initialiser
+    calls something. if/else, ?: in conditions and switch are decided from `val`; a condition the valuation leaves open raises
+    AnalysisBroken when something under it has an effect. A return ends the walk with ('return', value)."""
+    from rules.norm import Norm, cond_value, Unknown
+    nm = nm or Norm(fn, env=env or {}, keep=keep)
+    nm.val = val
+    out = []
+
+    def has_effect(st):
+        return any(x['k'] in ('BinaryOperator', 'CompoundAssignOperator', 'CXXOperatorCallExpr', 'UnaryOperator', 'CallExpr',
+                              'CXXMemberCallExpr', 'ReturnStmt') and
+                   (x.get('op') in ('=', '+=', '-=', '|=', '&=', '^=', '++', '--', '<<', '>>', '<<=', '>>=') or x['k'] in ('CallExpr', 'CXXMemberCallExpr', 'ReturnStmt'))
+                   for x in walk(st))
+
+    def switch_body(sw, value):
+        body = kids(sw)[-1]
+        res, on = [], False
+        labels = [x for x in kids(body) if x['k'] == 'CaseStmt']
+        for st in kids(body):
+            if st['k'] in ('CaseStmt', 'DefaultStmt'):
+                if (st['k'] == 'CaseStmt' and st.get('casev') == value) or \
+                        (st['k'] == 'DefaultStmt' and not any(l.get('casev') == value for l in labels)):
+                    on = True
+                if on:
+                    inner = [x for x in kids(st) if x['k'] not in ('ImplicitCastExpr', 'IntegerLiteral', 'ConstantExpr', 'DeclRefExpr', 'CharacterLiteral')]
+                    res.extend(inner)
+            elif on:
+                if st['k'] == 'BreakStmt':
+                    break
+                res.append(st)
+        return res
+
+    def run(sts):
+        for st in sts:
+            if st is None or st.get('mac') in ('assert', 'ASSERT', 'ASSERT_WITH_MSG'):
+                continue
+            k = st['k']
+            if k == 'CompoundStmt':
+                if run(kids(st)):
+                    return True
+            elif k == 'IfStmt':
+                ks = kids(st)
+                try:
+                    c = cond_value(nm, ks[0], val)
+                except Unknown as u:
+                    if has_effect(st):
+                        raise AnalysisBroken('%s: the condition at line %s depends on `%s`, which the case does not fix' % (fn.name, st.get('l'), u))
+                    continue
+                br = ks[1] if c else (ks[2] if len(ks) > 2 else None)
+                if br is not None and run([br]):
+                    return True
+            elif k == 'SwitchStmt':
+                v = nm.cval(kids(st)[0])
+                if v is None:
+                    v = val.get(nm.s(kids(st)[0]))
+                if v is None:
+                    raise AnalysisBroken('%s: switch on `%s`, which the case does not fix' % (fn.name, nm.s(kids(st)[0])))
+                if run(switch_body(st, v)):
+                    return True
+            elif k == 'ReturnStmt':
+                out.append('return ' + (nm.s(kids(st)[0]) if kids(st) else ''))
+                return True
+            elif k in ('ForStmt', 'WhileStmt', 'DoStmt', 'CXXForRangeStmt'):
+                if loops == 'stop' and has_effect(st):
+                    raise AnalysisBroken('%s: loop at line %s inside a fragment evaluated per case' % (fn.name, st.get('l')))
+                if loops == 'mark':
+                    out.append('loop@%s' % nm.s(kids(st)[0]) if k == 'WhileStmt' else 'loop')
+            elif k == 'DeclStmt':
+                for d in kids(st):
+                    if d['k'] == 'VarDecl' and kids(d) and any(x['k'] in ('CallExpr', 'CXXMemberCallExpr') and
+                                                                not (x.get('callee') or {}).get('const', False) and
+                                                                (x.get('callee') or {}).get('n', '').startswith('engine::') and
+                                                                fn.prog is not None and (fn.prog.mods(x['callee'].get('fid', '')) if x['callee'].get('fid') in fn.prog.funcs else False)
+                                                                for x in walk(kids(d)[0])):
+                        out.append('%s:=%s' % (d['name'], nm.s(kids(d)[0])))
+            elif k in ('NullStmt', 'BreakStmt', 'ContinueStmt'):
+                if k == 'ContinueStmt':
+                    out.append('continue')
+                    return True
+                continue
+            else:
+                # a call of a lambda written in this function: its body's effects happen here
+                e = st
+                while e is not None and e['k'] in ('ExprWithCleanups', 'ImplicitCastExpr', 'ParenExpr') and kids(e):
+                    e = kids(e)[-1]
+                g = fn.prog.funcs.get((e.get('callee') or {}).get('fid')) if fn.prog is not None and e.get('callee') else None
+                if g is not None and getattr(g, 'enclosing', None) is fn and g.body is not None and not g.params:
+                    sub = effects_under(g, kids(g.body), val, env, keep, loops)
+                    out.extend(x for x in sub if x != 'return ')
+                else:
+                    out.append(show(st))
+        return False
+
+    nm0 = Norm(fn, env=env or {}, keep=keep)          # targets of assignments are shown without the valuation
+
+    def show(st):
+        e = st
+        while e is not None and e['k'] in ('ExprWithCleanups', 'ImplicitCastExpr', 'ParenExpr') and kids(e):
+            e = kids(e)[-1]
+        if e['k'] in ('BinaryOperator', 'CompoundAssignOperator') and (e.get('op') == '=' or e['k'] == 'CompoundAssignOperator'):
+            lhs = nm0.s(kids(e)[0])
+            if e.get('op') == '=':
+                # x = x op y is shown like x op= y
+                r = nm0.resolve(kids(e)[1])
+                if r is not None and r['k'] == 'BinaryOperator' and r.get('op') in ('+', '-', '|', '&', '^') and len(kids(r)) == 2:
+                    a, b = kids(r)
+                    if nm0.s(a) == lhs:
+                        return '(%s%s=%s)' % (lhs, r['op'], nm.s(b))
+                    if nm0.s(b) == lhs and r['op'] in ('+', '|', '&', '^'):
+                        return '(%s%s=%s)' % (lhs, r['op'], nm.s(a))
+            return '(%s%s%s)' % (lhs, e['op'], nm.s(kids(e)[1]))
+        if e['k'] == 'CXXOperatorCallExpr' and e.get('op') in ('=', '+=', '-=', '|=', '&=', '^=') and len(kids(e)) == 3:
+            return '(%s%s%s)' % (nm0.s(kids(e)[1]), e['op'], nm.s(kids(e)[2]))
+        if e['k'] == 'UnaryOperator' and e.get('op') in ('++', '--'):
+            return '%s(%s)%s' % (e['op'], nm0.s(kids(e)[0]), ' post' if e.get('post') else '')
+        return nm.s(e)
+    run(stmts)
+    return out
